@@ -161,3 +161,41 @@ HIST = Contract("C02", INIT, "process_iter", env=ENV, name="__init__.is_running-
 BOUNDED_CONTRACTS = [HIST]
 BOUNDED = [bounded_sweep(HIST, "c04:history", quick=1200, thorough=30000)]
 NOT_COVERED.append("interleaved process_iter()/is_running() histories are covered by a bounded enumeration only")
+
+
+# --- "is_running() is True for as long as that very process is in the process table (zombie included) ... whatever other
+# psutil call is made in between": signalling a zombie on the flavour where kill() answers ESRCH for it (OpenBSD) ---------
+from . import C01 as _c01          # noqa: E402
+from vc.interp import EnvFunc as _EnvFunc   # noqa: E402
+
+
+def setup_sig_zombie(it, cfg):
+    o = make_process(it, gone=False, reused=False)
+    # the identity guard in front of the signal is C01's subject (proved there); here it has passed
+    o.attrs["_raise_if_pid_reused"] = _EnvFunc("_raise_if_pid_reused", lambda it2: None)
+
+    def kill(it2, pid, s):
+        it2.ctx.log.append(("kill", pid, s))
+        c = it2.choose(3, "os.kill:ok/ESRCH/EPERM")
+        if c == 1:
+            it2.raise_(ProcessLookupError, errno=I(3))
+        if c == 2:
+            it2.raise_(PermissionError, errno=I(1))
+
+    it.env_over["os.kill"] = _EnvFunc("os.kill", kill)
+    sig = it.fresh("sig", "Int")
+    listed = it.fresh("pid_still_listed", "Bool")      # what pid_exists() answers after kill() said ESRCH
+    it.env_over["__init__.pid_exists"] = _EnvFunc("pid_exists", lambda it2, p: listed)
+    return {"args": {"self": o, "sig": sig}, "spec": {"sig": sig, "listed": listed}, "values": [sig, listed]}
+
+
+REGISTRY.add(Contract(
+    "C02", INIT, "Process._send_signal", name="__init__.Process._send_signal[OPENBSD zombie]", setup=setup_sig_zombie,
+    env=dict(ENV, OPENBSD=True, BSD=True, LINUX=False), inline=_c01.INLINE, helpers=_c01.HELPERS,
+    ensures=["not self._gone"],
+    raises={"ZombieProcess": ["listed", "not self._gone", "exc.pid == self._pid"],      # still in the table: not "gone"
+            "NoSuchProcess": ["exc.pid == self._pid"], "AccessDenied": ["not self._gone"],
+            "ValueError": ["self._pid == 0"], "AssertionError": None},
+    canaries=["self._gone"], replay=None,
+    note="a signal sent to a zombie (kill() -> ESRCH while the PID is still listed) raises ZombieProcess and does not latch "
+         "the object as gone: is_running() keeps answering True while the zombie is in the table"))
